@@ -162,7 +162,8 @@ def main(argv):
     res.assumptions = [
         "the CLI driver always formats at the default width (it has no width option)",
         "blots-wasm::format_blots is exercised through its line-by-line mirror in harness/src/s_c0809.rs",
-        "string literals containing a double quote are not generated (F11 is property C05/C07's)"]
+        "string literals may contain the other quote character and `//` (since afe753e expr_to_source picks a quote "
+        "character that does not occur in the string)"]
     return res.finish()
 
 
